@@ -90,8 +90,10 @@ let functions : (string * (val0 -> val0)) list = [
   ("hub", hub_run);
 ]
 
-(* monitors: case -> implementation output -> list of violation descriptions *)
-let monitors : (string * (val0 -> val0 -> val0)) list = [
+(* monitors: (property, suite) -> case -> implementation output -> list of violations *)
+let monitors : ((string * string) * (val0 -> val0 -> val0)) list = [
+  (("C04", "hub"), mon_C04);
+  (("C10", "hub"), mon_C10);
 ]
 
 let first_diff (a : val0) (b : val0) : int =
@@ -104,31 +106,37 @@ let first_diff (a : val0) (b : val0) : int =
       go 0 la lb
   | _, _ -> -1
 
+(* usage: driver print            : print the model's output for each case
+          driver check <PROP>     : compare model and implementation, run PROP's monitors
+   output per input line: one line "OK", or "MISMATCH <suite> <index> <model-output>", followed by
+   zero or more "MONITOR <suite> <violation>" lines, then "END". *)
 let () =
   let mode = if Array.length Sys.argv > 1 then Sys.argv.(1) else "check" in
+  let prop = if Array.length Sys.argv > 2 then Sys.argv.(2) else "" in
   try
     while true do
       let line = input_line stdin in
-      match String.split_on_char '\t' line with
-      | name :: case :: rest ->
+      (match String.split_on_char '\t' line with
+      | suite :: case :: rest ->
           let c = parse case in
-          (match List.assoc_opt name functions with
+          let impl = match rest with i :: _ -> parse i | [] -> VL [] in
+          (match List.assoc_opt suite functions with
            | Some f ->
                let m = f c in
                if mode = "print" then print_endline (print m)
-               else begin
-                 let impl = match rest with i :: _ -> parse i | [] -> VL [] in
-                 if print m = print impl then print_endline "OK"
-                 else Printf.printf "MISMATCH\t%s\t%d\t%s\n" name (first_diff m impl) (print m)
-               end
-           | None -> ());
-          (match List.assoc_opt name monitors with
-           | Some f ->
-               let impl = match rest with i :: _ -> parse i | [] -> VL [] in
-               (match f c impl with
-                | VL [] -> if List.assoc_opt name functions = None then print_endline "OK"
-                | v -> Printf.printf "MONFAIL\t%s\t%s\n" name (print v))
-           | None -> if List.assoc_opt name functions = None then Printf.printf "UNKNOWN\t%s\n" name)
-      | _ -> print_endline "BADLINE"
+               else if print m = print impl then print_endline "OK"
+               else Printf.printf "MISMATCH\t%s\t%d\t%s\n" suite (first_diff m impl) (print m)
+           | None -> if mode <> "print" then print_endline "NOMODEL");
+          if mode <> "print" then begin
+            (match List.assoc_opt (prop, suite) monitors with
+             | Some f ->
+                 (match f c impl with
+                  | VL items -> List.iter (fun v -> Printf.printf "MONITOR\t%s\t%s\n" suite (print v)) items
+                  | v -> Printf.printf "MONITOR\t%s\t%s\n" suite (print v))
+             | None -> ());
+            print_endline "END"
+          end
+      | _ -> print_endline "BADLINE"; print_endline "END");
+      flush stdout
     done
   with End_of_file -> ()
